@@ -378,6 +378,14 @@ func (v *Env) eval(x Expr) *Val {
 		case "TrimPrefix":
 			a, b := v.eval(x.Args[0]), v.eval(x.Args[1])
 			return v.e.ufTerm("strings."+x.Fn, []*Val{a, b}, types.Typ[types.String])
+		case "Float64bits":
+			return &Val{typ: types.Typ[types.Uint64], c: []string{v.e.floatBits(v.eval(x.Args[0]).c[0], 64)}}
+		case "Float32bits":
+			return &Val{typ: types.Typ[types.Uint32], c: []string{v.e.floatBits(v.eval(x.Args[0]).c[0], 32)}}
+		case "identical":
+			// identical(a, b): identical values (SMT equality; for floats: the same IEEE datum, NaN included, +0 and -0 distinct)
+			a, b := v.eval(x.Args[0]), v.eval(x.Args[1])
+			return &Val{typ: tBool, c: []string{v.equal(a, b)}}
 		case "HasDotSegment":
 			return v.e.ufTerm("spec.HasDotSegment", []*Val{v.eval(x.Args[0])}, tBool)
 		case "Index":
@@ -636,6 +644,10 @@ func (v *Env) eval(x Expr) *Val {
 		for k, val := range v.vars {
 			inner.vars[k] = val
 		}
+		if x.Witness != nil && v.asGoal {
+			inner.vars[x.Var] = v.eval(x.Witness)
+			return &Val{typ: tBool, c: []string{inner.formula(x.Body)}}
+		}
 		e.n++
 		bv := fmt.Sprintf("x%d!%s", e.n, x.Var)
 		inner.vars[x.Var] = &Val{typ: types.Typ[types.String], c: []string{bv}}
@@ -711,6 +723,25 @@ func (v *Env) eval(x Expr) *Val {
 			return &Val{typ: tBool, c: []string{imp(v.formula(x.L), v.formula(x.R))}}
 		}
 		l, r := v.eval(x.L), v.eval(x.R)
+		// floats: numeric literals become IEEE literals of the other operand's type; comparisons are Go's (fp.eq, fp.lt ...)
+		if l.typ != nil && isFloat(l.typ) || r.typ != nil && isFloat(r.typ) {
+			ft := l.typ
+			if ft == nil || !isFloat(ft) {
+				ft = r.typ
+			}
+			if n, ok := x.L.(*ENum); ok {
+				l = &Val{typ: ft, c: []string{fpLit(float64(n.V), ft)}}
+			}
+			if n, ok := x.R.(*ENum); ok {
+				r = &Val{typ: ft, c: []string{fpLit(float64(n.V), ft)}}
+			}
+			if op, ok := map[string]string{"==": "fp.eq", "<": "fp.lt", "<=": "fp.leq", ">": "fp.gt", ">=": "fp.geq"}[x.Op]; ok {
+				return &Val{typ: tBool, c: []string{app(op, l.c[0], r.c[0])}}
+			}
+			if x.Op == "!=" {
+				return &Val{typ: tBool, c: []string{not(app("fp.eq", l.c[0], r.c[0]))}}
+			}
+		}
 		switch x.Op {
 		case "==", "!=":
 			var f string
@@ -754,6 +785,9 @@ func (v *Env) equal(l, r *Val) string {
 		}
 	}
 	var eqs []string
+	if len(l.c) != len(r.c) {
+		panic(fmt.Sprintf("contract: == between values of different shapes (%v vs %v)", l.typ, r.typ))
+	}
 	for k := range l.c {
 		eqs = append(eqs, eq(l.c[k], r.c[k]))
 	}
